@@ -24,6 +24,15 @@ func (RejectMessagesDecorator) AnteHandle(ctx sdk.Context, tx sdk.Tx, simulate b
 			)
 		}
 
+		// oracle messages are authorised by the feeder check of the settlus ante handler only: bundled with
+		// other messages they would reach their handlers, which perform no authorisation, unchecked
+		if strings.HasPrefix(sdk.MsgTypeURL(msg), "/settlus.oracle") {
+			return ctx, errorsmod.Wrapf(
+				errortypes.ErrInvalidType,
+				"Oracle Msg can only be processed in the Settlus ante handler",
+			)
+		}
+
 		if sdk.MsgTypeURL(msg) == "/cosmos.staking.v1beta1.MsgCreateValidator" && ctx.BlockHeight() != 0 {
 			return ctx, errorsmod.Wrapf(
 				errortypes.ErrInvalidType,
